@@ -54,6 +54,9 @@ def run(ctx):
     # the BBR capacity test stays a call (it is judged on its own below); every other private helper of the decision is inlined
     bbr_paths = [p for p in f.reach_bodies([decs[0].path]) if p != decs[0].path and "::system::" in p and f.bodies[p].ret_ty == "bool"
                  and any(callee_def(t).endswith("max_avg") for _, t in f.view(f.bodies[p]).calls())]
+    # (a wrapper such as `exceeds(value, rule) = value > T && (strategy != BBR || !bbr())` also reaches max_avg: the BBR test is the
+    # innermost such function, the wrapper belongs to the decision and is inlined)
+    bbr_paths = [p for p in bbr_paths if not any(q != p and q in f.reach_bodies([p]) for q in bbr_paths)]
     dec = f.view(f.raw(decs[0]), keep=tuple(bbr_paths))
     enum = f.adts.get("core::system::rule::MetricType")
     variants = [v["name"] for v in enum["variants"]] if enum else []
